@@ -178,7 +178,12 @@ def sympy_unitary(expr, n):
 
 
 def qasm_name(g):
-    return g.name.lower()
+    """Name a gate must be printed under, derived from its class and (for controlled gates) its inner gate and control count -
+    not from the gate object's own name attribute."""
+    if hasattr(g, "gate") and getattr(g, "n_controls", None):
+        return "c" * g.n_controls + g.gate.__class__.__name__.lower()
+    cls = g.__class__.__name__
+    return {"Swap": "swap", "Toffoli": "ccx"}.get(cls, cls.lower())
 
 
 def check_qasm(qc, text, version, mode):
@@ -361,6 +366,29 @@ def run_case(case):
         rows = done
         for where, p in probs:
             bad.append({"program": case["src"], "n": n, "export": where, "problem": p, "qubit_map": dict(list(qc.qubit_map.items())[:20])})
+        if not probs:
+            # history on the wrapper: gate()/export() through the QlassF, recompile without uncomputation, gate()/export() again -
+            # what the wrapper hands out must be the export of the circuit it holds NOW
+            try:
+                for fw in ("qasm", "qiskit"):
+                    qf.gate(fw)
+                    qf.export(fw)
+                qf.compile("internal", uncompute=False)
+                qc2 = qf.circuit()
+                for mode, got in (("gate", qf.gate("qasm")), ("circuit", qf.export("qasm"))):
+                    want = qc2.export(mode, "qasm")
+                    rows += 1
+                    if got != want:
+                        bad.append({"program": case["src"], "n": qc2.num_qubits, "export": "wrapper qasm/" + mode,
+                                    "problem": "after gate(), compile(uncompute=False), gate(): the wrapper returns a stale export"})
+                if qc2.num_qubits <= 8:
+                    for mode, obj in (("gate", qf.gate("qiskit")), ("circuit", qf.export("qiskit"))):
+                        rows += 1
+                        if obj.num_qubits != qc2.num_qubits or not svsim.close(svsim.unitary(qc2.gates, qc2.num_qubits), qiskit_unitary(obj, qc2.num_qubits, mode == "gate"), 1e-8):
+                            bad.append({"program": case["src"], "n": qc2.num_qubits, "export": "wrapper qiskit/" + mode,
+                                        "problem": "after gate(), compile(uncompute=False), gate(): the wrapper returns a stale export"})
+            except Exception as e:
+                bad.append({"program": case["src"], "n": n, "export": "wrapper history", "problem": "raised %s: %s" % (H.exc_name(e), str(e)[:100])})
         key = case["key"]
     out = {"status": "ok", "rows": rows, "states": states, "nontrivial": nontriv > 0, "outcome": H.h12(key),
            "counters": {"nontrivial_circuits": nontriv}}
